@@ -89,7 +89,15 @@ def run_case(cls, key, seed, ctx):
     wit = {"groups": g, "labels": y, "scores": s, "constraint": constraint, "objective": objective, "flip": flip, "grid_size": gs}
     dists = {tuple(sorted((s[i], y[i]) for i in range(len(g)) if g[i] == gv)) for gv in set(g)}
     ctx.mark(TL.signature(g, y, s, constraint, objective, flip, gs) + [fam], len(dists) >= 2, sample=wit)
-    to, X, sf = TL.fit_optimizer(g, y, s, constraint, objective, flip, gs, rng, hostile=hostile, extra_cols=int(rng.integers(0, 2)) if hostile else 0)
+    if cls == "rand" and rng.random() < 0.15 and max(abs(v) for v in s) < 1e6:
+        # a real scikit-learn estimator (prefit=False) and every predict_method; the scores are whatever the fitted estimator outputs
+        X = np.column_stack([np.asarray(s, float), rng.normal(size=len(y))])
+        to, s2, kind_ = TL.fit_optimizer_sklearn(g, y, X, constraint, objective, flip, gs, rng)
+        sf = g
+        wit = dict(wit, estimator=kind_, scores=s2.tolist())
+        ctx.ev("sklearn_estimator_fits")
+    else:
+        to, X, sf = TL.fit_optimizer(g, y, s, constraint, objective, flip, gs, rng, hostile=hostile, extra_cols=int(rng.integers(0, 2)) if hostile else 0)
     mech_suffix = ":adjacent_float_scores" if cls == "adjacent" else ""
     before = len(ctx.violations)
     check_equalised(ctx, to, X, sf, g, y, s, constraint, wit)
